@@ -37,7 +37,8 @@ RULE = ("cases = device call sequences on a random optical field (N in {1,2,3,5,
         "all-zero, dtype complex/float/int) x drive container kind (int,float,bool,np.float64,ndarray,int ndarray,list,tuple,str,"
         "electrical_signal with/without noise, length-1 forms, mismatched lengths) x (bias,Vpi,loss_dB,ER_dB in the statement's ranges "
         "incl. ER 0/60, loss 0) x pol x/y/invalid; kinds: mzm, mzm_per (u vs u+2Vpi), mzm_er (on/off), mzm_forms / pm_forms "
-        "(one waveform through every container), pm, pm_add (PM(PM(x,a),b) vs PM(x,a+b)), laser (lw/rin/df present or not; time argument "
+        "(one waveform through every container), pm, pm_add (PM(PM(x,a),b) vs PM(x,a+b); also with a+b formed from the caller's live "
+        "objects after the calls), pm_repeat / mzm_repeat (the SAME drive object used again; operands-unchanged monitor on every drive), laser (lw/rin/df present or not; time argument "
         "float64 / float32 / int32 / int64), mzm_bw "
         "(BW given, partly from a small fixed set so that it recurs under different sampling rates, N around the filter padding 15, scipy "
         "sections spied, reference = Bessel filter designed afresh by scipy), mzm_bw_hist (one BW under 2-3 sampling rates in sequence and back). "
@@ -282,6 +283,31 @@ def gen_cases(rng, tier):
             cases.append({"kind": "pm_add", "field": fld,
                           "calls": [dict(dev="pm", drive=a, Vpi=Vpi), dict(dev="pm", drive=b, Vpi=Vpi, input=0),
                                     dict(dev="pm", drive=c, Vpi=Vpi)]})
+        # the SAME drive object handed to the device again (results must be identical; the drive must come back untouched),
+        # and PM(PM(x,a),b) vs PM(x,a+b) with a+b formed from the caller's own objects AFTER the first two calls
+        for kind in ["ndarray", "ndarray", "ndarray_int", "esig", "esig_noise", "npfloat"]:
+            fld = _field(rng, [n for n in lens if n >= 2])
+            Vpi = _params(rng)["Vpi"]
+            d = gen_drive(rng, kind, fld["n"])
+            cases.append({"kind": "pm_repeat", "field": fld,
+                          "calls": [dict(dev="pm", drive=d, Vpi=Vpi), dict(dev="pm", drive=d, Vpi=Vpi, drive_ref=0),
+                                    dict(dev="pm", drive=d, Vpi=Vpi, drive_ref=0, input=0)]})
+        for kind in ["ndarray", "ndarray_int", "esig", "esig_noise", "list"]:
+            fld = _field(rng, [n for n in lens if n >= 2])
+            p = _params(rng)
+            pol = rng.choice(["x", "y"])
+            d = gen_drive(rng, kind, fld["n"])
+            cases.append({"kind": "mzm_repeat", "field": fld,
+                          "calls": [dict(dev="mzm", drive=d, pol=pol, **p), dict(dev="mzm", drive=d, pol=pol, drive_ref=0, **p)]})
+        for _ in range(6):
+            fld = _field(rng, [n for n in lens if n >= 2])
+            Vpi = _params(rng)["Vpi"]
+            a = gen_drive(rng, rng.choice(["ndarray", "esig", "esig_noise"]), fld["n"])
+            b = gen_drive(rng, rng.choice(["ndarray", "esig"]), fld["n"])
+            c = {"kind": "ndarray", "v": [x + y for x, y in zip(a["v"], b["v"])]}
+            cases.append({"kind": "pm_add", "field": fld,
+                          "calls": [dict(dev="pm", drive=a, Vpi=Vpi), dict(dev="pm", drive=b, Vpi=Vpi, input=0),
+                                    dict(dev="pm", drive=c, Vpi=Vpi, drive_sum=[0, 1])]})
     # MZM with the optional BW argument: BPF (C11 model, sections spied from scipy) after the modulation
     for _ in range(36 if tier == "quick" else 400):
         n = rng.choice([16, 17, 33, 64, 100, 16, 5, 15] if tier == "quick" else [16, 17, 33, 64, 100, 257, 1000, 15, 3])
@@ -353,12 +379,47 @@ def gen_cases(rng, tier):
 # implementation side
 # ------------------------------------------------------------------------------------------------
 
-def _run_call(call, x):
+def _live(obj):
+    """the samples a caller reads back from its own drive object"""
+    return obj.signal if hasattr(obj, "signal") else obj
+
+
+def _drive_bytes(obj):
+    """byte image of every array a drive argument owns (ndarray; electrical_signal: .signal and .noise)"""
+    if isinstance(obj, np.ndarray):
+        return (str(obj.dtype), obj.shape, obj.tobytes())
+    if hasattr(obj, "signal"):
+        return tuple((str(np.asarray(a).dtype), np.shape(a), np.asarray(a).tobytes()) if a is not None else None
+                     for a in (obj.signal, obj.noise))
+    return repr(obj)
+
+
+def _run_call(call, x, objs=None, mon=None):
+    """one device call; `objs`: the drive objects of the previous calls of the case (a call may re-use one: `drive_ref`, or add
+    two of them as the caller would AFTER those calls: `drive_sum`); `mon`: receives the operands-unchanged verdict"""
     from opticomlib.devices import MZM, PM
-    d = build_drive(call["drive"])
-    if call["dev"] == "mzm":
-        return MZM(x, d, bias=call["bias"], Vpi=call["Vpi"], loss_dB=call["ld"], ER_dB=call["er"], pol=call["pol"])
-    return PM(x, d, Vpi=call["Vpi"])
+    objs = [] if objs is None else objs
+    if call.get("drive_ref") is not None:
+        d = objs[call["drive_ref"]]
+    elif call.get("drive_sum") is not None:
+        i, j = call["drive_sum"]
+        d = np.asarray(_live(objs[i])).real + np.asarray(_live(objs[j])).real
+    else:
+        d = build_drive(call["drive"])
+    objs.append(d)
+    before = _drive_bytes(d)
+    try:
+        if call["dev"] == "mzm":
+            return MZM(x, d, bias=call["bias"], Vpi=call["Vpi"], loss_dB=call["ld"], ER_dB=call["er"], pol=call["pol"])
+        return PM(x, d, Vpi=call["Vpi"])
+    finally:
+        if mon is not None:
+            mon["drive_modified"] = _drive_bytes(d) != before
+            if mon["drive_modified"]:
+                try:
+                    mon["drive_after"] = [float(np.real(v)) for v in np.ravel(_live(d))][:8]
+                except Exception:  # noqa
+                    mon["drive_after"] = None
 
 
 def _run_laser(case, res):
@@ -442,9 +503,11 @@ def _run_mzm_bw(case, res):
             return None, {"status": "timeout", "detail": str(e)}
         except Exception as e:  # noqa
             return None, {"status": "err", "err": exc_enum(e), "detail": repr(e)[:200]}
+    before = _drive_bytes(d)
     with c11._Spy(dev) as spy:
         _, r = run(dev.MZM, x, d, BW=case["BW"], **kw)
         spy.on = False
+        r["drive_modified"] = _drive_bytes(d) != before
         res["results"] = [r]
         res["params"], res["remarks"] = c11._params(spy)
         y0, r0 = run(dev.MZM, x, d, **kw)
@@ -472,24 +535,28 @@ def run_impl(case):
                 return res
             gv(sps=16, R=1e9)
             x = F.build_field(case["field"])
-            outs = []
+            outs, objs = [], []
             for call in case["calls"]:
                 xin = x if call.get("input") is None else outs[call["input"]]
                 if xin is None:
                     res["results"].append({"status": "skipped"})
                     outs.append(None)
+                    objs.append(None)
                     continue
+                mon = {}
                 try:
                     with time_limit(20):
-                        y = _run_call(call, xin)
-                    res["results"].append({"status": "ok", **F.dump_signal(y)})
+                        y = _run_call(call, xin, objs, mon)
+                    res["results"].append({"status": "ok", **F.dump_signal(y), **mon})
                     outs.append(y)
                 except Timeout as e:
-                    res["results"].append({"status": "timeout", "detail": str(e)})
+                    res["results"].append({"status": "timeout", "detail": str(e), **mon})
                     outs.append(None)
                 except Exception as e:  # noqa
-                    res["results"].append({"status": "err", "err": exc_enum(e), "detail": repr(e)[:200]})
+                    res["results"].append({"status": "err", "err": exc_enum(e), "detail": repr(e)[:200], **mon})
                     outs.append(None)
+                if len(objs) < len(res["results"]):
+                    objs.append(None)          # the drive could not even be built
             # input must not have been modified
             after = F.dump_signal(x)
             if after["sig"] != case["field"]["sig"] and case["field"]["dtype"] == "complex":
@@ -869,6 +936,13 @@ def oracle(case, res):
     for path, part, row, idx in F.nonfinite_outputs({k: res[k] for k in ("results", "steps", "unfiltered", "bpf") if k in res})[:3]:
         # every generated input is finite and inside the statement's ranges: the documented formulas give finite outputs
         v.append(("C06:non-finite", f"{path}: {part} row {row} sample {idx} is NaN/inf although all inputs are finite"))
+    for i, r in enumerate(res.get("results", [])):
+        if r.get("drive_modified"):
+            c = case["calls"][i] if i < len(case.get("calls", [])) else case["calls"][0]
+            # a drive that comes back altered makes the next use of the same waveform (PM(x,u) again, a+b formed afterwards)
+            # obey exp(j*pi*u'/Vpi) for another u': the operands of the statement are the caller's u, a, b
+            v.append((f"C06:drive-modified:{c['dev']}", f"{c['dev'].upper()} altered its drive argument ({c['drive']['kind']}): "
+                      f"given {c['drive']['v'][:4]}..., afterwards it holds {r.get('drive_after')}"))
     if case["kind"] == "laser":
         return v + _oracle_laser(case, res)
     if case["kind"] == "mzm_bw":
@@ -923,6 +997,10 @@ def oracle(case, res):
             if not _same(oks[0][1], r):
                 v.append((f"C06:{case['kind']}", f"drive as {c['drive']['kind']}[{len(c['drive']['v'])}] gives a different result than as {oks[0][0]['drive']['kind']}"))
                 break
+    if case["kind"] in ("pm_repeat", "mzm_repeat") and rs[0]["status"] == "ok":
+        if rs[1]["status"] != "ok" or not _same(rs[0], rs[1]):
+            v.append((f"C06:{case['kind']}", f"the same call with the same drive object ({case['calls'][0]['drive']['kind']}) a second time gives "
+                      f"{'a different result' if rs[1]['status'] == 'ok' else str(rs[1])[:100]}"))
     if case["kind"] == "pm_add" and allok:
         z, w = rs[1], rs[2]
         sc = F.scales(F.c_rows(case["field"]["sig"]), None if case["field"]["noise"] is None else F.c_rows(case["field"]["noise"]))
